@@ -82,7 +82,8 @@ theorem genCols_spec (rec : Rec) (cols : List GCol) (r text : Str)
     (hc : ∀ c ∈ cols, c.till = c.offset + c.size ∧ c.till ≤ r.length)
     (hp : cols.Pairwise (fun a b => a.till ≤ b.offset ∨ b.till ≤ a.offset)) :
     text.length = r.length
-    ∧ (∀ a b, (∀ c ∈ cols, c.till ≤ a ∨ b ≤ c.offset) → slice text a b = slice r a b)
+    ∧ (∀ a b, (∀ c ∈ cols, source rec c ≠ none → c.till ≤ a ∨ b ≤ c.offset) →
+        slice text a b = slice r a b)
     ∧ (∀ c ∈ cols, ∀ v sv, source rec c = some (.ok v) → pyStr v = .ok sv →
         slice text c.offset c.till = padOrTrunc c.isInt c.size sv) := by
   induction cols generalizing r with
@@ -99,7 +100,8 @@ theorem genCols_spec (rec : Rec) (cols : List GCol) (r text : Str)
     have placed : ∀ v, source rec c = some (.ok v) → ∀ r', place c v r = .ok r' →
         genCols rec cs r' = .ok text →
         text.length = r.length
-        ∧ (∀ a b, (∀ x ∈ c :: cs, x.till ≤ a ∨ b ≤ x.offset) → slice text a b = slice r a b)
+        ∧ (∀ a b, (∀ x ∈ c :: cs, source rec x ≠ none → x.till ≤ a ∨ b ≤ x.offset) →
+            slice text a b = slice r a b)
         ∧ (∀ x ∈ c :: cs, ∀ v sv, source rec x = some (.ok v) → pyStr v = .ok sv →
             slice text x.offset x.till = padOrTrunc x.isInt x.size sv) := by
       intro v hsrc r' hpl hg'
@@ -116,7 +118,7 @@ theorem genCols_spec (rec : Rec) (cols : List GCol) (r text : Str)
         refine ⟨by rw [i1, hlen], ?_, ?_⟩
         · intro a b hab
           rw [i2 a b (fun x hx => hab x (by simp [hx]))]
-          exact place_frame r _ _ _ a b h1 hcc.2 (hab c (by simp))
+          exact place_frame r _ _ _ a b h1 hcc.2 (hab c (by simp) (by rw [hsrc]; simp))
         · intro x hx v' sv' hsrc' hsv'
           rcases List.mem_cons.mp hx with h | h
           · subst h
@@ -124,7 +126,7 @@ theorem genCols_spec (rec : Rec) (cols : List GCol) (r text : Str)
             cases hsrc'
             rw [hsv] at hsv'
             cases hsv'
-            rw [i2 _ _ (fun y hy => by
+            rw [i2 _ _ (fun y hy _ => by
               rcases hpc y hy with h | h
               · exact .inr h
               · exact .inl h)]
@@ -407,6 +409,30 @@ theorem loadFwf_spec (lines : List Str) (hdr body ftr : List PCol) (validate : B
                 · exact i4 x hx hne
                 · simp at hx; subst hx; exact ⟨_, by rw [hlay]; exact hr⟩
 
+
+theorem pairwise_disjoint_forall (fmt : List GCol)
+    (hp : fmt.Pairwise (fun a b => a.till ≤ b.offset ∨ b.till ≤ a.offset)) :
+    ∀ x ∈ fmt, ∀ c ∈ fmt, x = c ∨ (x.till ≤ c.offset ∨ c.till ≤ x.offset) := by
+  induction fmt with
+  | nil => simp
+  | cons y fmt ih =>
+    obtain ⟨h1, h2⟩ := List.pairwise_cons.mp hp
+    intro x hx c hc
+    rcases List.mem_cons.mp hx with hx' | hx' <;> rcases List.mem_cons.mp hc with hc' | hc'
+    · exact .inl (hx'.trans hc'.symm)
+    · rw [hx']; exact .inr (h1 c hc')
+    · rw [hc']
+      rcases h1 x hx' with h | h
+      · exact .inr (.inr h)
+      · exact .inr (.inl h)
+    · exact ih h2 x hx' c hc'
+
+theorem slice_replicate (n a b : Nat) (ch : Char) (h : b ≤ n) :
+    slice (List.replicate n ch) a b = List.replicate (b - a) ch := by
+  unfold slice
+  rw [List.drop_replicate, List.take_replicate]
+  congr 1
+  omega
 
 /-! ### counting -/
 
